@@ -2,6 +2,7 @@
 -- MANIFEST.setup_cmd pre-builds everything and the per-property checks only rebuild what changed)
 import DelbModel.Generated.Tables
 import DelbModel.Props.C01
+import DelbModel.Props.C01Api
 import DelbModel.Props.C02
 import DelbModel.Props.C03
 import DelbModel.Props.C03Wrap
